@@ -38,7 +38,7 @@ func (fv *FnVerifier) wfListTerm(st *State, l string) string {
 	nx, pv, ow, ln := fv.heapGet(st, "list.next"), fv.heapGet(st, "list.prev"), fv.heapGet(st, "list.owner"), fv.heapGet(st, "list.len")
 	e := fv.q.fresh("we")
 	zero := fv.mode.idx(0)
-	body := fmt.Sprintf("(=> (= (select %s %s) %s) (and (not (= %s 0)) (not (= %s %s)) (not (= (select "+nx+" "+e+") "+e+")) (not (= (select "+pv+" "+e+") "+e+")) (= (select %s (select %s %s)) %s) (= (select %s (select %s %s)) %s) (or (= (select %s %s) %s) (= (select %s (select %s %s)) %s)) (or (= (select %s %s) %s) (= (select %s (select %s %s)) %s))))",
+	body := fmt.Sprintf("(=> (= (select %s %s) %s) (and (not (= %s 0)) (not (= %s %s)) (not (= (select "+nx+" "+e+") "+e+")) (not (= (select "+pv+" "+e+") "+e+")) (not (= (select "+ln+" "+l+") "+zero+")) (=> (= (select "+ln+" "+l+") "+fv.mode.idx(1)+") (= "+e+" (select "+nx+" "+l+"))) (= (select %s (select %s %s)) %s) (= (select %s (select %s %s)) %s) (or (= (select %s %s) %s) (= (select %s (select %s %s)) %s)) (or (= (select %s %s) %s) (= (select %s (select %s %s)) %s))))",
 		ow, e, l, e, e, l,
 		pv, nx, e, e,
 		nx, pv, e, e,
